@@ -65,6 +65,16 @@ func daStream(t *testing.T, e *vgen.Env, res *vgen.Result, tmp string, crash boo
 			sc.Crash = crash
 			scs = append(scs, sc)
 		}
+		// ingress back-pressure: a backlog of channel capacity while SyncLoop is busy
+		nb := 1
+		if e.Tier == "thorough" {
+			nb = 2
+		}
+		for c := 0; c < nb; c++ {
+			sc := syncdrv.GenDABacklog(syncdrv.CaseRng(e.Seed+1489, c))
+			sc.Crash = crash
+			scs = append(scs, sc)
+		}
 	}
 	for _, sc := range scs {
 		c, err := syncdrv.ChainFor(sc.Chain, tmp)
@@ -74,6 +84,9 @@ func daStream(t *testing.T, e *vgen.Env, res *vgen.Result, tmp string, crash boo
 		r := syncdrv.RunDAScenario(t, c, sc, tmp)
 		res.Evaluations++
 		res.Count("da-ingress:scenarios")
+		if sc.Backlog > 0 {
+			res.Count("da-ingress:backlog-of-channel-capacity")
+		}
 		if r.StoppedAt {
 			res.Count("da-ingress:stopped-right-after-a-commit")
 		}
@@ -86,6 +99,98 @@ func daStream(t *testing.T, e *vgen.Env, res *vgen.Result, tmp string, crash boo
 				Replay: syncdrv.Replay{Seed: e.Seed, Case: -1, Chain: sc.Chain, DA: &scc}})
 		}
 	}
+}
+
+// p2pChains: the two long chains all P2P-ingress scenarios of one run share (producing a chain with the real
+// aggregator is the expensive part).
+func p2pChains(e *vgen.Env) []syncdrv.P2PChain {
+	n := 319
+	if e.Tier == "thorough" {
+		n = 419
+	}
+	return []syncdrv.P2PChain{{Initial: 1, N: n, Seed: e.Seed}, {Initial: []uint64{2, 7, 1000}[int(e.Seed%3+3)%3], N: n, Seed: e.Seed}}
+}
+
+func p2pViolates(t *testing.T, sc syncdrv.P2PScenario, steps []syncdrv.P2PStep, tmp, sig string) bool {
+	c, err := syncdrv.ChainFor(sc.Chain.Spec(), tmp)
+	if err != nil {
+		return false
+	}
+	sc.Steps = steps
+	for _, v := range syncdrv.RunP2PScenario(t, c, sc, tmp).Viol {
+		if v.Sig == sig {
+			return true
+		}
+	}
+	return false
+}
+
+// p2pStream runs the P2P-ingress scenarios (real Header/DataStoreRetrieveLoop + SyncLoop on fake go-header
+// stores).  Go oracle + cases for Check.P2PIngressCheck (second cases file).
+func p2pStream(t *testing.T, e *vgen.Env, res *vgen.Result, tmp string, replay *syncdrv.P2PScenario) (string, bool) {
+	var scs []syncdrv.P2PScenario
+	if replay != nil {
+		scs = append(scs, *replay)
+	} else {
+		n := 96
+		if e.Tier == "thorough" {
+			n = 300
+		}
+		chains := p2pChains(e)
+		for c := 0; c < n; c++ {
+			r := syncdrv.CaseRng(e.Seed+4409, c)
+			scs = append(scs, syncdrv.GenP2PScenario(r, chains[r.Intn(len(chains))]))
+		}
+	}
+	var cases []string
+	shrunk := map[string]bool{}
+	for k, sc := range scs {
+		c, err := syncdrv.ChainFor(sc.Chain.Spec(), tmp)
+		if err != nil {
+			t.Fatalf("producing the chain: %v", err)
+		}
+		r := syncdrv.RunP2PScenario(t, c, sc, tmp)
+		res.Evaluations++
+		mode := "e2e"
+		if sc.Tap {
+			mode = "tap"
+		}
+		res.Count("p2p-ingress:scenarios-" + mode)
+		res.Count(fmt.Sprintf("p2p-ingress:initial-height:%d", sc.Chain.Initial))
+		res.Count(fmt.Sprintf("p2p-ingress:largest-burst:%03d+", (r.MaxJump/50)*50))
+		res.Distribution["p2p-ingress:clean-restarts"] += r.Restarts
+		res.Distribution["p2p-ingress:stops-inside-a-burst"] += r.Stopped
+		res.Distribution["p2p-ingress:blocks-applied-by-syncer"] += r.Applied
+		for _, ru := range r.Runs {
+			res.Distribution["p2p-ingress:loop-wake-ups"] += len(ru.Hdr.Sigs) + len(ru.Data.Sigs)
+		}
+		if r.EmptySig {
+			res.Count("p2p-ingress:wake-up-on-empty-store-initial-gt-1")
+		}
+		idx := 100000 + k
+		scc := sc
+		for _, v := range r.Viol {
+			sig := v.Sig
+			rp := scc
+			if !shrunk[sig] && replay == nil {
+				shrunk[sig] = true
+				rp.Steps = vgen.Shrink(sc.Steps, func(s []syncdrv.P2PStep) bool { return p2pViolates(t, scc, s, tmp, sig) })
+			}
+			res.Violations = append(res.Violations, vgen.Violation{Signature: sig, What: v.What, Case: idx,
+				Replay: syncdrv.Replay{Seed: e.Seed, Case: idx, P2P: &rp}})
+		}
+		cases = append(cases, r.CoqCase())
+		res.Replays[fmt.Sprint(idx)] = syncdrv.Replay{Seed: e.Seed, Case: idx, P2P: &scc}
+		if len(res.Samples) < 1 && !sc.Tap && r.MaxJump > 100 && r.Restarts > 0 {
+			res.Samples = append(res.Samples, map[string]interface{}{"p2p_scenario": sc, "applied": r.Applied})
+		}
+	}
+	res.Cases += len(cases)
+	path := filepath.Join(e.Out, "cases_C02_p2p.v")
+	if err := vgen.WriteCases(path, syncdrv.P2PCoqHeader, nil, "pcase", cases, "mismatches"); err != nil {
+		t.Fatal(err)
+	}
+	return path, true
 }
 
 func TestVerif(t *testing.T) {
@@ -106,7 +211,10 @@ func TestVerif(t *testing.T) {
 		if err := vgen.LoadReplay(e.Replay, &rp); err != nil {
 			t.Fatal(err)
 		}
-		if rp.DA != nil {
+		if rp.P2P != nil {
+			path, _ := p2pStream(t, e, res, tmp, rp.P2P)
+			res.CaseFiles = append(res.CaseFiles, path)
+		} else if rp.DA != nil {
 			daStream(t, e, res, tmp, false, rp.DA)
 		} else {
 			jobs = append(jobs, job{rp: rp})
@@ -128,6 +236,8 @@ func TestVerif(t *testing.T) {
 	}
 	if e.Replay == "" {
 		daStream(t, e, res, tmp, false, nil)
+		path, _ := p2pStream(t, e, res, tmp, nil)
+		res.CaseFiles = append(res.CaseFiles, path)
 	}
 	var defs, cases []string
 	defs = append(defs, syncdrv.BadCase)
@@ -180,13 +290,13 @@ func TestVerif(t *testing.T) {
 		}
 	}
 	res.Distinct = len(distinct)
-	res.Rule = "chains of 3..13 blocks (thorough: ..41) from a real aggregator Manager (initial height in {1,2,5,1000}, ~35% empty blocks with runs, 10% of chains repeat a non-empty tx list); history = every header/data event of the chain (25% of histories drop ~8% of events), duplicated 1-3x, order in {sorted, reversed, headers-first, data-first, near-sorted, shuffled}, random DA tags, 0-2 clean restarts (SaveCache + NewManager); non-trivial = at least 4 items and 2 applied blocks; distinct = distinct (chain, history) pairs; plus the DA-ingress scenario stream (real RetrieveLoop + SyncLoop on a scripted DA layer, stop right after a commit, restart, converge; oracle only)"
-	res.Cases = len(cases)
+	res.Rule = "chains of 3..13 blocks (thorough: ..41) from a real aggregator Manager (initial height in {1,2,5,1000}, ~35% empty blocks with runs, 10% of chains repeat a non-empty tx list); history = every header/data event of the chain (25% of histories drop ~8% of events), duplicated 1-3x, order in {sorted, reversed, headers-first, data-first, near-sorted, shuffled}, random DA tags, 0-2 clean restarts (SaveCache + NewManager); non-trivial = at least 4 items and 2 applied blocks; distinct = distinct (chain, history) pairs; plus the DA-ingress scenario stream (real RetrieveLoop + SyncLoop on a scripted DA layer, stop right after a commit, restart, converge; oracle only); plus the P2P-ingress scenario stream (real HeaderStoreRetrieveLoop + DataStoreRetrieveLoop, with the real SyncLoop or with the harness as consumer of the event channels, on fake go-header stores whose height jumps by 1..300 between signals over a 320-block chain; transient read failures, DA position changes, clean restarts, stops inside a burst; every wake-up compared with Model/P2PIngress.v in cases_C02_p2p.v)"
+	res.Cases += len(cases)
 	path := filepath.Join(e.Out, "cases_C02.v")
 	if err := vgen.WriteCases(path, syncdrv.CoqHeader, defs, "scase", cases, "mismatches"); err != nil {
 		t.Fatal(err)
 	}
-	res.CaseFiles = []string{path}
+	res.CaseFiles = append(res.CaseFiles, path)
 	if err := res.Write(e.Out); err != nil {
 		t.Fatal(err)
 	}
